@@ -54,6 +54,8 @@ THEOREMS = [
     'C14.faultWith_maskOf', 'C14.sfNew_coherent', 'C14.sfStep_coherent', 'C14.sfRun_coherent', 'C14.surfaceBase_error',
     'C14.faultCore_eq', 'C14.fault_after_history', 'C14.fault_history_clauses', 'C14.surfaceSF_forgets',
     'C14.sfRun_history_independent', 'C14.history_eq_fresh', 'C14.surfaceSF_default_plane', 'C14.vacuum_same_crystal',
+    # vacuum and relative coordinates (tilted cut vector)
+    'C14.cartToRel_z_of_flat', 'C14.vacuum_rel_cut_c', 'C14.vacuum_rel_cut_bounds', 'C14.vacuum_inplane_c',
 ]
 PARTIAL = {
     'isclose_as_exact_zero': 'np.isclose(x, 0) / np.isclose(mag, b_mag) / the arccos-based angle comparisons are modelled '
@@ -81,7 +83,16 @@ PARTIAL = {
                             'given cell `rbox` with its atoms; the search oracle checks on the real objects that it is a '
                             'proper rotation of uvws.vects holding det(uvws) copies of every unit-cell atom',
     'minimum_r': 'only the final algebra of the push is proved (the pushed separation has length minimum_r); the '
-                 'selection of the closest pair by System.dvect is not modelled',
+                 'selection of the closest pair by System.dvect is not modelled (the search oracle recomputes the closest '
+                 'pair across the plane on the real systems: common push t >= 0, closest pair exactly minimum_r apart)',
+    'object_model': 'the Lean object (SFState / sfStep) covers shift, stored system, faultpos_rel / faultpos_cart, the cached '
+                    'abovefault mask and the two shift vectors under set_shift / surface / the faultpos setters / fault / '
+                    'iterfaultmap, with the state a refused call leaves behind; not in it: unique_shifts (spglib), the '
+                    'uvw form stored by the a?vect_uvw setters (only the Cartesian vectors), minimum_r, the box stretch '
+                    'wrap() applies across the non-periodic cut when atoms are pushed out of it (positions only)',
+    'vacuum_relative_coordinates': 'vacuum_rel_cut_c / vacuum_inplane_c are stated for cutboxvector c (the LAMMPS-normal '
+                                   'rotated cell allows a tilt of c in both in-plane directions; for cutboxvector a the cut '
+                                   'vector has no tilt, for b the analogous statement is not written out)',
 }
 RULE = ('free_surface_basis: every plane |h|,|k|,|l| <= N (N=4 quick, 7 thorough; zeros and negatives included) against '
         'cells of all seven crystal families in two regimes — small dyadic cells on which every dot/cross product of the '
@@ -95,7 +106,17 @@ RULE = ('free_surface_basis: every plane |h|,|k|,|l| <= N (N=4 quick, 7 thorough
         'fault() mask (exact) and positions. distinct = distinct (cell, plane, cut, maxindex, setting) or system '
         'parameters; non-trivial = the call did not refuse. Search: the clauses on the real objects with an exact '
         'Fraction oracle (zone law, determinant, reciprocal direction, brute-force minimality in the exact regime) and '
-        'a site census of the built systems against the unit cell.')
+        'a site census of the built systems against the unit cell. Object histories: 5-9 calls on ONE FreeSurface / '
+        'StackingFault object (constructor shiftindex; surface() with shiftindex incl. negative / out of range, explicit '
+        'shift absolute or shiftscale=True, both (refused), kept shift, sizemults ints / tuples / zero extent, minwidth, '
+        'even, vacuumwidth incl. 0 and negative, faultpos_rel / faultpos_cart incl. the edges, outside, both; set_shift; '
+        'the two faultpos setters; fault() with a1 / a2 / outofplane singly or together, faultshift, both (refused), '
+        'fault-plane overrides midway between atomic layers, a1vect_uvw / a2vect_uvw overrides incl. out-of-plane vectors '
+        '(refused) and 3-index forms on 4-index planes, minimum_r (search only); iterfaultmap(num_a1, num_a2, outofplane); '
+        'fault() before any build). Every call is chosen after looking at the real object, mirrored on the Lean object, '
+        'and followed by a comparison of every attribute; in the search every call is judged by a specification-level '
+        'shadow of the final arguments, a fresh object given the same final arguments (bitwise equal reads), and the '
+        'clause oracle on every returned fault configuration.')
 ASSUMPTIONS = [
     'np.isclose(x, 0.0) is x = 0, np.isclose(mag, b_mag) is equality of lengths, and the comparisons of norms / '
     'arccos angles are the exact comparisons of squared lengths / cross-multiplied squared cosines (order-equivalent '
@@ -111,6 +132,10 @@ ASSUMPTIONS = [
     '1e-12 or far from it)',
     'np.unique(round(x, numdec)) keeps the first atom of each rounded layer coordinate, ascending (model `layerCoords`; '
     'cases within 1e-3 of a rounding boundary or with layer gaps near tol are not compared)',
+    'object histories: the Lean object is created from what __init__ fixed on the real object (rotated cell, offered '
+    'shifts, inv(uvws) . rcell.vects as the map from primitive indices to Cartesian vectors); atoms within 1e-9 of the '
+    'fault plane are exempt from the mask / position comparison, atoms the model places on a periodic face may differ by '
+    'a whole cell vector (floor of wrap is discontinuous there); np.isclose(x, 0.0) is |x| <= 1e-8 exactly',
 ]
 TRUSTED = ['numpy inside the implementation run', 'fractions.Fraction / numpy site census oracles in search()',
            "C16's theorems idx_cross_parallel / normal_is_reciprocal (imported, audited there), C05_Lemmas' "
@@ -838,9 +863,15 @@ def _correspond_fs(ctx, exact):
                              f'{[float(w) for w in want]} along the cut', dict(info, coords=xs, W=W))
                 continue
         # ---- surface() ---------------------------------------------------------------------
-        _correspond_surface(ctx, sf, info, ci, cut, W)
-        nsurf += 1
-        nfault += _correspond_fault(ctx, sf, info, ci, cut, exact)
+        try:
+            _correspond_surface(ctx, sf, info, ci, cut, W)
+            nsurf += 1
+            nfault += _correspond_fault(ctx, sf, info, ci, cut, exact)
+        except cm.InfraError:
+            raise
+        except Exception as e:  # noqa  (whatever the implementation raises is an observation, not a harness failure)
+            ctx.disagree('FreeSurface:exception', f'FreeSurface/StackingFault({hkl}, {nm}, cut={cut}): '
+                         f'{type(e).__name__}: {e}', info)
     k = 'exact' if exact else 'float'
     ctx.extra[f'fs_{k}'] = {'shift_lists': nshift, 'refusals_checked': nref, 'undecided_refusals': nund,
                            'surface_systems': nsurf, 'fault_systems': nfault}
@@ -864,6 +895,10 @@ def _correspond_surface(ctx, sf, info, ci, cut, W):
         err = None
     except ValueError as e:
         system, err = None, str(e)
+    except Exception as e:  # noqa
+        ctx.disagree('surface:exception', f'surface({kw}) raised {type(e).__name__}: {e}', sinfo)
+        sf.surface(shiftindex=si)
+        return
     ctx.stats.case('surface', (info['crystal'], tuple(info['hkl']), cut, str(kw)), nontrivial=system is not None,
                    sample={k: str(v) for k, v in kw.items()})
     q = '-' if minwidth is None else str(int(np.ceil(minwidth / W)))
@@ -1236,7 +1271,7 @@ def _near_plane(P, ci, fp, W):
     return np.abs(np.asarray(P, dtype=float)[:, ci] - fp) <= 1e-9 * max(1.0, abs(W))
 
 
-def _cmp_model_state(ctx, sf, cls, W, tag, info):
+def _cmp_model_state(ctx, sf, cls, W, tag, info, vac=None):
     """every attribute of the real object against the Lean object after a call.  Returns False on a disagreement."""
     import numpy as np
     real = _state(sf)
@@ -1268,7 +1303,12 @@ def _cmp_model_state(ctx, sf, cls, W, tag, info):
         out = ctx.driver.ask('sf pos')
         M = np.array([float(x) for x in cm.unfrs(out)]).reshape(-1, 3) if not out.startswith('err') else np.zeros((0, 3))
         P = np.asarray(rs.atoms.pos, dtype=float)
-        i = _pos_mismatch(P, M, rs.box.vects, rs.box.origin, [True, True, True])
+        # wrap() ran in the box BEFORE the vacuum was inserted: its faces are where the floor is discontinuous
+        v0, o0 = np.array(rs.box.vects, dtype=float), np.array(rs.box.origin, dtype=float)
+        if vac:
+            v0[ci, ci] -= vac
+            o0[ci] += vac / 2
+        i = _pos_mismatch(P, M, v0, o0, [True, True, True])
         if i is not None:
             return dis('positions', f'atom {i} of the stored system at {P[i].tolist() if i >= 0 else "?"}, model '
                        f'{M[i].tolist() if 0 <= i < len(M) else "?"}')
@@ -1488,6 +1528,8 @@ def _gen_fault_kw(rng, sf):
         kw['faultshift'], kw['a1'] = [0.5, 0.0, 0.0], 0.5
     _gen_fpos(rng, sf, kw, 0.3)
     _gen_avect(rng, sf, kw, 0.12)
+    if rng.random() < 0.12 and not ('faultshift' in kw and 'a1' in kw):
+        kw['minimum_r'] = rng.uniform(0.5, 3.2)      # (search only: the pair selection of the push is not in the model)
     return kw
 
 
@@ -1746,6 +1788,47 @@ def _fault_clause(P, Q, above, near, req, system, ci):
     return None
 
 
+def _push_clause(P, Q, above, near, req, system, ci, i1, i2, r):
+    """the `minimum_r` push of fault(): -> (message or None, t)."""
+    import numpy as np
+    up = above & ~near
+    if not up.any() or (~above & ~near).sum() == 0:
+        return None, 0.0
+    ts = (Q - P)[up, ci] - req[ci]
+    t = float(np.median(ts))
+    if np.abs(ts - t).max() > 1e-7 or t < -1e-9:
+        return f'the atoms above the plane are pushed by different / negative amounts across the cut ({ts.min()}..{ts.max()})', t
+    if near.any():
+        return None, t
+    A = Q[above].copy()
+    A[:, ci] -= t                                   # before the push
+    B = Q[~above]
+    v1, v2 = np.asarray(system.box.vects[i1], dtype=float), np.asarray(system.box.vects[i2], dtype=float)
+    best = None
+    for n1 in (-1, 0, 1):
+        for n2 in (-1, 0, 1):
+            d = A[:, None, :] - B[None, :, :] + n1 * v1 + n2 * v2
+            m = np.sqrt((d ** 2).sum(axis=2))
+            if best is None:
+                best, bd = m, d
+            else:
+                take = m < best
+                best = np.where(take, m, best)
+                bd = np.where(take[:, :, None], d, bd)
+    dmin = float(best.min())
+    if dmin >= r - 1e-9:
+        if t > 1e-7:
+            return f'pushed by {t} although the closest pair across the plane is {dmin} apart', t
+        return None, t
+    tied = np.argwhere(best <= dmin + 1e-9)
+    for i, j in tied:
+        d = bd[i, j].copy()
+        d[ci] += t
+        if abs(float(np.sqrt((d ** 2).sum())) - r) <= 1e-6 * max(1.0, r):
+            return None, t
+    return f'the closest pair across the plane ({dmin} apart before the push) is not {r} apart after the push of {t}', t
+
+
 def run_history(ctx, spec, mode, ops=None, report=True):
     """one history on one object.  mode 'model': mirror on the Lean object (correspondence);
     mode 'oracle': specification shadow + fresh object + clause oracle (search).  Returns (failed, ops)."""
@@ -1756,6 +1839,14 @@ def run_history(ctx, spec, mode, ops=None, report=True):
         sf, ucell, st = _hist_new(spec)
     except (ValueError, AssertionError):
         return failed, []               # documented refusal of the orientation (checked elsewhere)
+    except IndexError:
+        if (spec.get('ctor') or {}).get('shiftindex') is None:
+            raise
+        spec = dict(spec, ctor={})      # fewer shifts than the constructor's shiftindex: go on without it
+        try:
+            sf, ucell, st = _hist_new(spec)
+        except (ValueError, AssertionError):
+            return failed, []
     cls = spec['cls']
     ci = sf.cutindex
     W = float(sf.rcellwidth)
@@ -1787,9 +1878,13 @@ def run_history(ctx, spec, mode, ops=None, report=True):
         pristine = copy.deepcopy(sf)
         sh = _Shadow(spec, len(sf.shifts), spec['hkl'])
     nops = len(ops) if ops is not None else spec['nops']
+    built_vac = None
     for k in range(nops):
         op = ops[k] if ops is not None else _gen_op(rng, sf, cls, k)
+        if mode == 'model' and 'minimum_r' in (op.get('kw') or {}):
+            op = dict(op, kw={kk: v for kk, v in op['kw'].items() if kk != 'minimum_r'})
         done.append(op)
+        sys_before = _priv(sf, 'FreeSurface', 'system')
         res = _apply(sf, op)
         tag = f'call {k + 1}'
         ctx.stats.case('hist:' + mode + ':' + op['op'], (spec['crystal'], tuple(spec['hkl']), spec['cut'], spec['hseed'], k),
@@ -1806,7 +1901,9 @@ def run_history(ctx, spec, mode, ops=None, report=True):
             if rcls != mcls:
                 bad('outcome', f'{_show_op(op)} -> {rcls if res[0] == "ok" else res[1] + " (" + res[2] + ")"}, model {mcls}')
                 break
-            if not _cmp_model_state(ctx, sf, cls, W, f'after {_show_ops(done)}', info()):
+            if op['op'] == 'surface' and _priv(sf, 'FreeSurface', 'system') is not sys_before:
+                built_vac = op['kw'].get('vacuumwidth')      # (a build refused at the fault-position stage counts)
+            if not _cmp_model_state(ctx, sf, cls, W, f'after {_show_ops(done)}', info(), built_vac):
                 failed.append('state')
                 break
             if res[0] == 'ok' and op['op'] in ('fault', 'map'):
@@ -1903,6 +2000,18 @@ def run_history(ctx, spec, mode, ops=None, report=True):
                 bad('fault-system', f'{what}: the faulted system is not the stored system with moved atoms')
                 stop = True
                 break
+            if op['op'] == 'fault' and kw.get('minimum_r') is not None:
+                # optional push: one extra out-of-plane shift t >= 0, common to all atoms above the plane, which
+                # brings the closest pair across the plane to exactly minimum_r (nothing if no pair is closer)
+                msg, t = _push_clause(P, Q, above, near, req, system, ci, i1, i2, kw['minimum_r'])
+                if msg:
+                    bad('fault-push', f'{what}, minimum_r={kw["minimum_r"]}: {msg}')
+                    stop = True
+                    break
+                req = req + t * ovect
+                pc = ctx.extra.setdefault('minimum_r_pushes', {'calls': 0, 'pushed': 0})
+                pc['calls'] += 1
+                pc['pushed'] += int(t > 1e-7)
             w = _fault_clause(P, Q, above, near, req, system, ci)
             if w is not None:
                 i, side = w
@@ -1950,7 +2059,13 @@ def _correspond_histories(ctx):
     specs = _hist_specs(ctx, rng, ctx.n(160, 1500))
     nf = nops = 0
     for spec in specs:
-        f, done = run_history(ctx, spec, 'model')
+        try:
+            f, done = run_history(ctx, spec, 'model')
+        except cm.InfraError:
+            raise
+        except Exception as e:  # noqa  (an exception of the implementation outside the mirrored calls)
+            ctx.disagree('hist:exception', f'{spec}: {type(e).__name__}: {e}', dict(spec))
+            f, done = ['exception'], []
         nf += bool(f)
         nops += len(done)
     ctx.extra['histories_model'] = {'objects': len(specs), 'calls': nops, 'failed': nf}
@@ -2254,10 +2369,38 @@ def o_free_surface(ctx, spec, report=True):
         elif abs(mlo - mhi) > 1e-6 * W:
             bad('between-planes', f'{tag}: the cut is not midway between the planes it separates '
                 f'({mlo} below the first plane, {mhi} above the last)')
-        # (with vacuum and a tilted cut vector the in-plane relative coordinates change: not a clause of the property)
         srel = (P - system.box.origin) @ np.linalg.inv(system.box.vects)
-        if vac is None and (srel.min() < -1e-9 or srel.max() > 1 + 1e-9):
-            bad('inside', f'{tag}: atoms outside the box (relative coordinates {srel.min()}..{srel.max()})')
+        if vac is None:
+            if srel.min() < -1e-9 or srel.max() > 1 + 1e-9:
+                bad('inside', f'{tag}: atoms outside the box (relative coordinates {srel.min()}..{srel.max()})')
+        else:
+            # "contains the same crystal" with vacuum: the same atoms at the same Cartesian positions as the build
+            # without vacuum, the same periodic in-plane cell vectors (so the same positions modulo them), only the
+            # extent across the non-periodic cut grows by vac, split evenly; atoms strictly inside across the cut.
+            # The property does NOT say that the in-plane *relative* coordinates stay in [0, 1): when the cut vector is
+            # tilted off the normal, stretching only its cut component moves them by (s_c - s_c') x (the tilt in units
+            # of the in-plane vectors); those atoms are periodic images of atoms inside (counted, not a failure).
+            ref = sf.surface(**dict(kw, vacuumwidth=None, sizemults=list(sizemults)))
+            Pr = np.asarray(ref.atoms.pos, dtype=float)
+            dv = np.asarray(system.box.vects, dtype=float) - np.asarray(ref.box.vects, dtype=float)
+            do = np.asarray(system.box.origin, dtype=float) - np.asarray(ref.box.origin, dtype=float)
+            wantdv = np.zeros((3, 3))
+            wantdv[ci, ci] = vac
+            wantdo = np.zeros(3)
+            wantdo[ci] = -vac / 2
+            if Pr.shape != P.shape or not np.array_equal(Pr, P) or not np.array_equal(ref.atoms.atype, system.atoms.atype):
+                bad('vacuum', f'{tag}: the atoms are not those of the same build without vacuum')
+            elif np.abs(dv - wantdv).max() > 1e-12 * max(1.0, W) or np.abs(do - wantdo).max() > 1e-12 * max(1.0, W):
+                bad('vacuum', f'{tag}: box changed by {dv.tolist()} / origin by {do.tolist()}, expected +{vac} on the cut '
+                    f'component of the cut vector and -{vac / 2} on the origin only')
+            elif srel[:, ci].min() <= 0 or srel[:, ci].max() >= 1:
+                bad('inside', f'{tag}: atoms outside the box across the non-periodic cut (relative coordinate '
+                    f'{srel[:, ci].min()}..{srel[:, ci].max()})')
+            ve = ctx.extra.setdefault('vacuum_builds', {'systems': 0, 'tilted_cut_vector': 0, 'inplane_relative_outside_0_1': 0})
+            ve['systems'] += 1
+            ve['tilted_cut_vector'] += int(any(abs(float(system.box.vects[ci, j])) > 1e-9 * W for j in inpl))
+            ve['inplane_relative_outside_0_1'] += int(srel[:, inpl].min() < -1e-9 or srel[:, inpl].max() > 1 + 1e-9)
+            system = sf.surface(**dict(kw, sizemults=list(sizemults)))       # leave the vacuum build stored
     if failed or system is None:
         return failed
     # ---- stacking fault on the last surface system ---------------------------------------------------------
@@ -2465,9 +2608,14 @@ MANIFEST = {
             'copies of each rotated-cell atom at original + shift + lattice vector, inside the supercell, pbc off '
             'across the cut only, multiplier rules, vacuum split evenly; fault() leaves atoms at or below the plane '
             'where they are and moves those above by the requested vector modulo the periodic cell vectors; a shift by '
-            'a periodic cell vector (or any translation symmetry of the upper half) restores the crystal. The model is '
+            'a periodic cell vector (or any translation symmetry of the upper half) restores the crystal. On the object '
+            'level (state kept between calls) the cached abovefault mask is, after ANY history of calls including refused '
+            'ones, the mask of the stored system at the stored plane, so fault() always satisfies the two clauses for the '
+            'current system and plane; an accepted surface() call forgets the past (same results as a new object with the '
+            'same final arguments), its default plane is the middle of the new system; inserting vacuum keeps atoms, pbc '
+            'and in-plane cell vectors, the relative coordinate across the cut becomes (s w + vac/2)/(w + vac). The model is '
             'tied to the code by an exhaustive differential run over planes x families x cuts x settings and over '
-            'built surface / fault systems.',
+            'built surface / fault systems and over histories of calls on single objects.',
     'note': 'Trusted: Lean kernel + propext/Classical.choice/Quot.sound; numpy; isclose/arccos comparisons modelled as '
             'exact comparisons (float ties handled relationally in the correspondence); floor and sqrt are parameters with '
             'their defining inequalities; rotate/normalize of the unit cell are C04/C05 (here checked on the real objects '
